@@ -263,6 +263,47 @@ func c03Check(c *C03Case, r *core.Rec) {
 		}
 		r.Fail("swap-two-sided", "two-sided P(x1,x2)=%v, P(x2,x1)=%v", got[1].P, sw[1].P)
 	}
+	// History: the caller negates both samples in place (same slices, same lengths).
+	// Negation reverses the order of all values: U -> n1*n2 - U, the one-sided
+	// p-values change places.
+	for i := range x1 {
+		x1[i] = -x1[i]
+	}
+	for i := range x2 {
+		x2[i] = -x2[i]
+	}
+	for ai, alt := range c01Alts {
+		res, err := stats.MannWhitneyUTest(x1, x2, alt)
+		r.Trans(1)
+		if err != nil || res == nil {
+			r.Fail("rewritten-error", "after negating the samples in place: %v", err)
+			return
+		}
+		mirror := got[2-ai]
+		if res.U != float64(n1*n2)-got[ai].U || !(math.Abs(res.P-mirror.P) <= 1e-9) {
+			if exact && ai != 1 {
+				// one-sided exact tails are mirror images; the two-sided one goes through the known defect
+			}
+			if ai == 1 && exact {
+				u := c03Null(n1, n2, T)
+				um := c03Null(n1, n2, reverseInts(T))
+				if math.Abs(got[1].P-mwKnownTwoSided(u, twoU)) <= 1e-9 && math.Abs(res.P-mwKnownTwoSided(um, 2*n1*n2-twoU)) <= 1e-9 && res.U == float64(n1*n2)-got[ai].U {
+					r.KnownHit("mw-two-sided-asym", "x1=%v x2=%v: two-sided P=%v but P=%v on the negated samples", c.X1, c.X2, got[1].P, res.P)
+					continue
+				}
+			}
+			r.Fail("rewritten-in-place", "x1=%v x2=%v limits=(%d,%d) alt=%v: after negating both samples in place (U,P)=(%v,%v); before it was (%v,%v) and the mirrored alternative gave P=%v", trunc(c.X1), trunc(c.X2), c.EL, c.TEL, alt, res.U, res.P, got[ai].U, got[ai].P, mirror.P)
+			return
+		}
+	}
+}
+
+func reverseInts(x []int) []int {
+	y := make([]int, len(x))
+	for i, v := range x {
+		y[len(x)-1-i] = v
+	}
+	return y
 }
 
 func trunc(x []float64) string {
